@@ -144,11 +144,11 @@ def parse_time(e):
                 H.append(f)
             elif f.func == sym.DiracDelta:
                 Dl.append(f)
-            elif f.is_Pow and f.base.func == sym.Heaviside:
-                raise Unparsed('power of Heaviside')
+            elif f.is_Pow and f.base.func == sym.Heaviside and f.exp.is_Integer and f.exp > 0:
+                H.append(f.base)          # u(x)**k = u(x) (almost everywhere; irrelevant for the transform)
             else:
                 rest.append(f)
-        if len(H) > 1 or len(Dl) > 1 or (H and Dl):
+        if len(set(H)) > 1 or len(Dl) > 1 or (H and Dl):
             raise Unparsed('product of steps/impulses')
         rest = sym.Mul(*rest)
         if Dl:
